@@ -191,7 +191,7 @@ func c04Resend(c *Check, P string, r *GCRoles) {
 		}
 		c.Report(ok, P+".O2", "RESEND-UNLESS-CLOSED", D, sw.si.Sel.Pos(), k, "from the Nack case every path to the function's exit passes the send again or the subscription-closed check", wit...)
 	}
-	// the sent value is waited on: from the send case the settle-wait is always reached (shared with C05.O1)
+	c05DeliverUntilSettled(c, P+".O2", r)
 }
 
 func c04Fanout(c *Check, P string, r *GCRoles) {
@@ -509,6 +509,7 @@ func c04Register(c *Check, P string, r *GCRoles) {
 		_, hasTopic := held[r.idTopic]
 		c.Report(hasTopic, P+".O6", "REGISTER-UNDER-TOPIC-LOCK", s.Parent(), s.Pos(), fmt.Sprintf("registration#%d", i), "… and with the topic's mutex held", "held: "+held.String())
 	}
+	c11Handoff(c, P+".O6", r)
 	// the registration appends the subscription to its topic's list
 	A := r.AddSub
 	var subP *ssa.Parameter
